@@ -66,3 +66,56 @@ func TestScratchIntegrator(t *testing.T) {
 		fmt.Printf("%-60s total=%.7f err=%.2e evals=%d cells=%d mass[%.2e..%.2e] skip=%q err=%v %v\n", describe(ls), an.total, an.quadErr, an.evals, len(an.mass), minM, maxM, skip, err, el)
 	}
 }
+
+func TestScratchScan(t *testing.T) {
+	a1 := kit.V3{0.3, -0.5, 0.8}.Unit()
+	worstTot, worstCell := 0.0, 0.0
+	var wt, wc string
+	for i := 0; i <= 60; i++ {
+		alpha := 0.01 * math.Pow(1e6, float64(i)/60)
+		for k := 0; k < 6; k++ {
+			th := []float64{0, 0.02, 0.5, 1.2, 1.5707, 2.9}[k]
+			e1, _ := orthoBasis(a1)
+			a2 := a1.Scale(math.Cos(th)).Add(e1.Scale(math.Sin(th))).Unit()
+			var ls []lobe
+			if k == 0 {
+				ls = []lobe{{kind: "pow", axis: a1, alpha: alpha, w: 1}}
+			} else {
+				ls = []lobe{{kind: "pow", axis: a1, alpha: alpha, w: 0.5}, {kind: "pow", axis: a2, alpha: 1, w: 0.5}}
+			}
+			d := dist{density: refDensity(ls), lobes: ls}
+			an, _, _ := analyse(d)
+			if e := math.Abs(an.total-1) - an.quadErr; e > worstTot {
+				worstTot, wt = e, fmt.Sprintf("%s th=%g total=%.7f err=%.2e", describe(ls), th, an.total, an.quadErr)
+			}
+			if k == 0 {
+				wp := an.g.wp
+				for c := range an.mass {
+					vi := c / an.g.nphi
+					y0, y1 := wp.inv(an.g.vedges[vi]), wp.inv(an.g.vedges[vi+1])
+					cdf := func(y float64) float64 {
+						if y >= 1 {
+							return 1
+						}
+						return -math.Expm1((alpha + 1) * math.Log1p(-y))
+					}
+					want := (cdf(y1) - cdf(y0)) / float64(an.g.nphi)
+					if e := math.Abs(an.mass[c]-want) - an.errs[c]; e > worstCell {
+						worstCell, wc = e, fmt.Sprintf("alpha=%g cell %d mass=%.6e want=%.6e err=%.2e", alpha, c, an.mass[c], want, an.errs[c])
+					}
+				}
+			}
+		}
+	}
+	fmt.Println("worst undetected total error:", worstTot, wt)
+	fmt.Println("worst undetected cell error:", worstCell, wc)
+	for i := 0; i <= 40; i++ {
+		g := 1 - math.Pow(10, -3*float64(i)/40)
+		ls := []lobe{{kind: "hg", axis: a1, g: g, w: 1}}
+		d := dist{density: refDensity(ls), lobes: ls}
+		an, _, _ := analyse(d)
+		if e := math.Abs(an.total-1) - an.quadErr; e > 1e-5 {
+			fmt.Println("hg", g, an.total, an.quadErr)
+		}
+	}
+}
